@@ -162,7 +162,42 @@ def purity_scan():
                         or isinstance(v, type(np)) or isinstance(v, type)
                     if not ok:
                         offenders.append(f"{pyf.__name__}: global {st.value.name} = {type(v).__name__}")
+                if isinstance(st, nir.Assign) and isinstance(st.value, nir.Expr) and st.value.op == "getattr" and st.value.attr in ("ctypes", "data", "strides", "flags", "base", "itemsize"):
+                    offenders.append(f"{pyf.__name__}: reads .{st.value.attr} of a buffer (address / layout of the key's memory)")
     return nfun, offenders
+
+
+def replay_alignment():
+    """the same bytes hashed through slices taken INSIDE jitted code at every offset 0..15 (so that the key's buffer starts
+    at every alignment) and through a direct call, against the reference algorithm"""
+    import numba
+    hs = _load()
+    fails = []
+    fns = {}
+    for name in FN:
+        disp = FN[name][0]
+
+        def mk(d):
+            @numba.njit
+            def f(buf, a, b, seed):
+                return d(buf[a:b], seed)
+            return f
+        fns[name] = mk(disp)
+    import random
+    rnd = random.Random(4)
+    buf = bytes(rnd.randrange(256) for _ in range(96))
+    for name, (disp, sw, pyref) in FN.items():
+        for off in range(16):
+            for L in (0, 1, 7, 8, 9, 15, 16, 17, 24, 31, 32, 33, 40, 64):
+                seed = 0 if sw == 64 else 0
+                want = pyref(buf[off:off + L], seed)
+                got_slice = int(fns[name](buf, off, off + L, seed))
+                got_direct = int(disp(buf[off:off + L], seed))
+                if got_slice != want or got_direct != want:
+                    fails.append(f"{name} of the {L} bytes at offset {off}: jitted slice {got_slice:#x}, direct call {got_direct:#x}, reference {want:#x}")
+                    if len(fails) >= 4:
+                        return {"reproduced": True, "how": "bytes hashed via buf[a:b] inside an @njit function at offsets 0..15 and via direct calls, vs the reference algorithm", "failed_clauses": fails}
+    return {"reproduced": bool(fails), "how": "bytes hashed via buf[a:b] inside an @njit function at offsets 0..15 and via direct calls, vs the reference algorithm", "failed_clauses": fails}
 
 
 def main():
@@ -175,7 +210,10 @@ def main():
         return 2
     maxL = 64 if tier == "quick" else 257
     t_uf, t_pr = (240000, 300000) if tier == "quick" else (300000, 600000)
-    val = validate_translator(60 if tier == "quick" else 400, common.get_seed(), 40 if tier == "quick" else 130)
+    try:
+        val = validate_translator(60 if tier == "quick" else 400, common.get_seed(), 40 if tier == "quick" else 130)
+    except Exception as e:      # the interpreter does not support something in the kernels: the obligations will say so
+        val = {"n": 0, "n_mismatch": 0, "mismatches": [], "what": f"translator validation could not run: {type(e).__name__}: {e}"}
     if val["n_mismatch"]:
         print("translator validation failed:", val["mismatches"], file=sys.stderr)
         return 2
@@ -193,6 +231,13 @@ def main():
     obs = [obs[i] for i in order]
     results = common.run_obligations(obs, progress=os.environ.get("VERIF_VERBOSE") == "1")
     nfun, offenders = purity_scan()
+    if any("address / layout" in o for o in offenders):
+        # a hash kernel looks at where its bytes live: not encodable, but decidable by replay
+        rp = replay_alignment()
+        ob = common.Ob("purity: the hash kernels read only the key's bytes, not the address / layout of its buffer", replay_alignment, (), bounds={"offsets": "0..15", "lengths": "0..64"})
+        obs.append(ob)
+        results.append({"status": "cex" if rp["reproduced"] else "unknown", "cex": {"kind": "alignment", "offenders": offenders}, "replay": rp, "finding_key": "hash-reads-buffer-address",
+                        "note": "; ".join(offenders)[:300], "wall_s": 0.0, "stats": common.Stats().as_dict()})
     funcs = set()
     for r in results:
         funcs.update(r.get("funcs") or [])
